@@ -22,7 +22,9 @@ unsafe impl<T: ?Sized, R: RawMutex> RawLock for Mutex<T, R> {
 
 		// if the closure unwraps, then the mutex will be killed
 		let this = AssertUnwindSafe(self);
-		handle_unwind(|| this.raw.lock(), || self.poison())
+		handle_unwind(|| this.raw.lock(), || self.poison());
+		#[cfg(happylock_verif)]
+		crate::verif_hook::rec("acq", 'w', self as *const Self as *const () as usize, true);
 	}
 
 	unsafe fn raw_try_write(&self) -> bool {
@@ -32,12 +34,17 @@ unsafe impl<T: ?Sized, R: RawMutex> RawLock for Mutex<T, R> {
 
 		// if the closure unwraps, then the mutex will be killed
 		let this = AssertUnwindSafe(self);
-		handle_unwind(|| this.raw.try_lock(), || self.poison())
+		let ok = handle_unwind(|| this.raw.try_lock(), || self.poison());
+		#[cfg(happylock_verif)]
+		crate::verif_hook::rec("try", 'w', self as *const Self as *const () as usize, ok);
+		ok
 	}
 
 	unsafe fn raw_unlock_write(&self) {
 		// if the closure unwraps, then the mutex will be killed
 		let this = AssertUnwindSafe(self);
+		#[cfg(happylock_verif)]
+		crate::verif_hook::rec("rel", 'w', self as *const Self as *const () as usize, true);
 		handle_unwind(|| this.raw.unlock(), || self.poison())
 	}
 
